@@ -150,22 +150,26 @@ macro_rules! dual_layer {
                         return;
                     }
                 }
-                // float operand: the same answer as the core float operator (= promoting the float)
-                match guarded(|| a.verif_py_binop(name, Number::F64(f))) {
-                    Caught::Ok(Some(Ok(got))) => {
-                        let want = coref(&a, f);
-                        if !$same(&got, &want) {
-                            ctx.violation(&format!("{}|python-layer|{}|{}|float-operand", pid, $tname, name), json!({"input": detail(), "python_layer": $js(&got), "core_operation": $js(&want)}));
+                // float operand: the same answer as the core float operator (= promoting the float); the special
+                // floats 0, -0 and 1 (Python's sum() starts with 0 + x) included
+                for (ff, fcls) in [(f, "float"), (0.0, "float-zero"), (-0.0, "float-negative-zero"), (1.0, "float-one")] {
+                    ctx.class(&format!("py:{}:{}:{}", $tname, name, fcls));
+                    match guarded(|| a.verif_py_binop(name, Number::F64(ff))) {
+                        Caught::Ok(Some(Ok(got))) => {
+                            let want = coref(&a, ff);
+                            if !$same(&got, &want) {
+                                ctx.violation(&format!("{}|python-layer|{}|{}|{}-operand", pid, $tname, name, fcls), json!({"input": detail(), "float_operand": fj(ff), "python_layer": $js(&got), "core_operation": $js(&want)}));
+                                return;
+                            }
+                        }
+                        Caught::Ok(_) => {
+                            ctx.violation(&format!("{}|python-layer|{}|{}|float-operand-refused", pid, $tname, name), detail());
                             return;
                         }
-                    }
-                    Caught::Ok(_) => {
-                        ctx.violation(&format!("{}|python-layer|{}|{}|float-operand-refused", pid, $tname, name), detail());
-                        return;
-                    }
-                    Caught::Panic { loc, msg } => {
-                        report_panic(ctx, pid, name, &loc, &msg, detail());
-                        return;
+                        Caught::Panic { loc, msg } => {
+                            report_panic(ctx, pid, name, &loc, &msg, detail());
+                            return;
+                        }
                     }
                 }
                 // the other derivative order is refused, not computed
@@ -297,26 +301,71 @@ pub fn dual_conversions(ctx: &mut Ctx, pid: &str, r: &mut Rng) {
         ctx.violation(&format!("{}|python-layer|to_dual2-or-to_dual", pid), json!({"dual": djson(&a), "to_dual2": d2json(&up), "dual2": d2json(&c), "to_dual": djson(&down)}));
         return;
     }
-    // vars_from: names drawn from the other number's list share its storage
-    let sub: Vec<String> = a.vars().iter().filter(|_| r.bool()).cloned().collect();
-    let g: Vec<f64> = sub.iter().map(|_| r.real()).collect();
-    let want = Dual::try_new_from(&a, 1.25, sub.clone(), g.clone());
-    let got = Dual::verif_py_vars_from(&a, 1.25, sub.clone(), g.clone());
-    let ok = match (&got, &want) {
-        (Ok(x), Ok(y)) => same_dual(x, y) && x.ptr_eq(&a) == y.ptr_eq(&a),
-        (Err(()), Err(_)) => true,
-        _ => false,
+    // vars_from: names drawn from the other number's list - a subset or all of them, in ANY order, with explicit
+    // derivative arrays of the right or of a wrong length: exactly what the core try_new_from gives
+    // (same number by name, same storage sharing, same refusals), and never an abort
+    let mut sub: Vec<String> = a.vars().iter().filter(|_| r.chance(0.8)).cloned().collect();
+    r.shuffle(&mut sub);
+    let glen = match r.below(5) {
+        0 => 0,
+        1 => sub.len() + 1,
+        2 => sub.len().saturating_sub(1),
+        _ => sub.len(),
     };
-    let sub2: Vec<String> = c.vars().iter().filter(|_| r.bool()).cloned().collect();
-    let g2: Vec<f64> = sub2.iter().map(|_| r.real()).collect();
-    let want2 = Dual2::try_new_from(&c, 1.25, sub2.clone(), g2.clone(), vec![]);
-    let got2 = Dual2::verif_py_vars_from(&c, 1.25, sub2.clone(), g2.clone(), vec![]);
-    let ok2 = match (&got2, &want2) {
-        (Ok(x), Ok(y)) => same_dual2(x, y) && x.ptr_eq(&c) == y.ptr_eq(&c),
-        (Err(()), Err(_)) => true,
-        _ => false,
+    let g: Vec<f64> = (0..glen).map(|_| r.real()).collect();
+    let mut sub2: Vec<String> = c.vars().iter().filter(|_| r.chance(0.8)).cloned().collect();
+    r.shuffle(&mut sub2);
+    let n2 = sub2.len();
+    let g2len = match r.below(5) {
+        0 => 0,
+        1 => n2 + 1,
+        _ => n2,
     };
-    if !ok || !ok2 {
-        ctx.violation(&format!("{}|python-layer|vars_from", pid), json!({"other": djson(&a), "vars": sub, "other2": d2json(&c), "vars2": sub2}));
+    let g2: Vec<f64> = (0..g2len).map(|_| r.real()).collect();
+    let h2: Vec<f64> = match r.below(4) {
+        0 => vec![],
+        1 => vec![0.5; n2 * n2 + 1],
+        _ => {
+            let mut h = vec![0.0; n2 * n2];
+            for i in 0..n2 {
+                for j in i..n2 {
+                    let x = r.real();
+                    h[i * n2 + j] = x;
+                    h[j * n2 + i] = x;
+                }
+            }
+            h
+        }
+    };
+    ctx.class(if glen == sub.len() || glen == 0 { "py:vars_from:consistent-lengths" } else { "py:vars_from:wrong-lengths" });
+    let res = guarded(|| {
+        (
+            Dual::verif_py_vars_from(&a, 1.25, sub.clone(), g.clone()),
+            Dual::try_new_from(&a, 1.25, sub.clone(), g.clone()).map_err(|_| ()),
+            Dual2::verif_py_vars_from(&c, 1.25, sub2.clone(), g2.clone(), h2.clone()),
+            Dual2::try_new_from(&c, 1.25, sub2.clone(), g2.clone(), h2.clone()).map_err(|_| ()),
+        )
+    });
+    let detail = || json!({"other": djson(&a), "vars": sub, "dual_len": glen, "other2": d2json(&c), "vars2": sub2, "dual_len2": g2len, "dual2_len": h2.len()});
+    match res {
+        Caught::Ok((got, want, got2, want2)) => {
+            let ok = match (&got, &want) {
+                (Ok(x), Ok(y)) => same_dual(x, y) && x.ptr_eq(&a) == y.ptr_eq(&a),
+                (Err(()), Err(())) => true,
+                _ => false,
+            };
+            let ok2 = match (&got2, &want2) {
+                (Ok(x), Ok(y)) => same_dual2(x, y) && x.ptr_eq(&c) == y.ptr_eq(&c),
+                (Err(()), Err(())) => true,
+                _ => false,
+            };
+            if !ok || !ok2 {
+                ctx.violation(
+                    &format!("{}|python-layer|vars_from|{}", pid, if !ok { "Dual" } else { "Dual2" }),
+                    json!({"input": detail(), "python_layer": [got.as_ref().map(djson).ok(), got2.as_ref().map(d2json).ok()], "core try_new_from": [want.as_ref().map(djson).ok(), want2.as_ref().map(d2json).ok()]}),
+                );
+            }
+        }
+        Caught::Panic { loc, msg } => report_panic(ctx, pid, "vars_from", &loc, &msg, detail()),
     }
 }
